@@ -1,0 +1,15 @@
+//go:build verif
+
+// Contracts of this package for the deductive verifier in /verif (vcgo).
+// Comment-only; compiled only with -tags verif.
+
+package config
+
+// The agent validates its configuration before any listener is built
+// (Config.Validate); the constructors rely on that and panic otherwise.
+//@ contract (*ListenerConfig).URL
+//@   trusted parses the configured address (port, host:port or URL); configuration is validated at start-up
+//@   ensures[env-validated] result1 && result0 != nil
+//@ contract (*TLSConfig).Load
+//@   trusted loads the configured certificates; configuration is validated at start-up
+//@   ensures[env-validated] result1 == nil
